@@ -315,7 +315,13 @@ func (r *Run) classifyMapLoop(l *mapLoop) (class, arg string) {
 			if isAcc {
 				continue
 			}
-			// does the phi carry a value around the loop?
+			// does the phi carry a value around the loop? Only a phi at the head of a loop
+			// (this one or a nested one) does; a phi elsewhere joins the branches of one
+			// iteration (`if a { x, err = f() } else { x, err = g() }`) — what it joins is
+			// looked at where it comes from (a header phi it merges is examined itself)
+			if len(naturalLoop(p.Block())) == 0 {
+				continue
+			}
 			carried := false
 			for i, e := range p.Edges {
 				if l.blocks[p.Block().Preds[i]] && e != ssa.Value(p) {
@@ -1301,8 +1307,11 @@ func (r *Run) checkAppendSortReducer(fn *ssa.Function, call *ssa.Call, mapF, red
 	// carried index: a field store in mapF with the closure's parameter
 	var idxField *types.Var
 	if len(mapF.Params) == 1 {
+		// the index is the closure parameter itself, or the index field of the (url, index)
+		// pair the payload was built from with lo.Map over the URL list
+		idxOf := fanoutIndexOf(fn, call, mapF)
 		for _, ins := range allInstrs(mapF) {
-			if st, ok := ins.(*ssa.Store); ok && unwrap(st.Val) == ssa.Value(mapF.Params[0]) {
+			if st, ok := ins.(*ssa.Store); ok && (unwrap(st.Val) == ssa.Value(mapF.Params[0]) || (idxOf != nil && idxOf(unwrap(st.Val)))) {
 				if fa, ok := st.Addr.(*ssa.FieldAddr); ok {
 					idxField = fieldOf(fa)
 				}
